@@ -412,3 +412,57 @@ def depth_of(e):
     else:
         return 0
     return 1 + max([depth_of(k) for k in kids] or [0])
+
+
+def shape_of(e):
+    """(rows, cols) of an operator expression (mirrors the constructors)"""
+    t = e[0]
+    if t in ("dense", "sparse"):
+        return e[2], e[3]
+    if t == "tri":
+        return e[2], e[3]
+    if t == "scalar":
+        return e[3], e[3]
+    if t == "eye":
+        return e[2], e[2]
+    if t == "diag":
+        return len(e[2]), len(e[2])
+    if t == "tridiag":
+        return len(e[3]), len(e[3])
+    if t == "perm":
+        return len(e[2]), len(e[2])
+    if t == "house":
+        return len(e[2]), len(e[2])
+    if t == "prod":
+        return shape_of(e[1])[0], shape_of(e[-1])[1]
+    if t == "sum":
+        return shape_of(e[1])
+    if t in ("kron", "kronsum"):
+        r = c = 1
+        for x in e[1:]:
+            a, b = shape_of(x)
+            r, c = r * a, c * b
+        return r, c
+    if t == "bdiag":
+        r = c = 0
+        for x, m in zip(e[1], e[2]):
+            a, b = shape_of(x)
+            r, c = r + a * m, c + b * m
+        return r, c
+    if t in ("T", "H"):
+        a, b = shape_of(e[1])
+        return b, a
+    if t == "slice":
+        a, b = shape_of(e[1])
+
+        def n(ix, ext):
+            return len(ix["a"]) if "a" in ix else len(range(*slice(*ix["s"]).indices(ext)))
+        return n(e[2], a), n(e[3], b)
+    if t == "concat":
+        shs = [shape_of(x) for x in e[2:]]
+        return (shs[0][0], sum(s[1] for s in shs)) if e[1] == 1 else (sum(s[0] for s in shs), shs[0][1])
+    if t == "generic":
+        return shape_of(e[1])
+    if t == "ann":
+        return shape_of(e[2])
+    raise ValueError(t)
